@@ -120,13 +120,14 @@ type Party struct {
 	Rec     *recpr.Recorder
 	Adj     *ledger.Adjudicator
 
-	mu        sync.Mutex
-	watched   map[channel.ID]bool
-	published map[channel.ID][]uint64
-	channels  map[channel.ID]*client.Channel
-	newCh     chan *client.Channel
-	OnUpdate  UpdatePolicy
-	OnPropose ProposalPolicy
+	mu          sync.Mutex
+	acceptNonce *client.NonceShare
+	watched     map[channel.ID]bool
+	published   map[channel.ID][]uint64
+	channels    map[channel.ID]*client.Channel
+	newCh       chan *client.Channel
+	OnUpdate    UpdatePolicy
+	OnPropose   ProposalPolicy
 	// ProposalsSeen records every invocation of the proposal handler.
 	ProposalsSeen []client.ChannelProposal
 	// UpdatesSeen counts invocations of the update handler.
@@ -174,11 +175,26 @@ func (w *World) NewParty(name string, funds int64) *Party {
 		p.mu.Lock()
 		p.channels[ch.ID()] = ch
 		p.mu.Unlock()
-		if !p.NoWatch {
+		if !p.NoWatch && !ch.IsVirtualChannel() {
+			// until the watcher has accepted the channel the world counts as busy (closing a
+			// channel while its Watch call is starting crashes inside the library)
+			atomic.AddInt64(&w.Busy, 1)
+			var once sync.Once
+			release := func() { once.Do(func() { atomic.AddInt64(&w.Busy, -1) }) }
 			go func() {
+				defer release()
+				p.AwaitWatched(ch.ID())
+			}()
+			go func() {
+				defer release()
 				// Watch of a sub-channel needs the parent to be watched already; the parent's
 				// Watch goroutine may not have got that far yet, so retry for a while.
 				for try := 0; ; try++ {
+					select {
+					case <-w.stop:
+						return
+					default:
+					}
 					err := ch.Watch(p)
 					if err != nil && try < 2000 && strings.Contains(err.Error(), "parent channel not registered") {
 						time.Sleep(100 * time.Microsecond)
@@ -287,12 +303,18 @@ func (p *Party) Channel(id channel.ID) *client.Channel {
 	return p.channels[id]
 }
 
+// AwaitChannelNoWatch is AwaitChannel (virtual channels are never handed to the watcher).
+func (p *Party) AwaitChannelNoWatch(id channel.ID) *client.Channel { return p.AwaitChannel(id) }
+
+// SetAcceptNonce fixes the nonce share of the party's next accept messages (nil: random).
+func (p *Party) SetAcceptNonce(n *client.NonceShare) { p.mu.Lock(); p.acceptNonce = n; p.mu.Unlock() }
+
 // AwaitChannel waits until the party's client registered the channel.
 func (p *Party) AwaitChannel(id channel.ID) *client.Channel {
 	deadline := time.After(p.Timeout)
 	for {
 		if ch := p.Channel(id); ch != nil {
-			if !p.NoWatch {
+			if !p.NoWatch && !ch.IsVirtualChannel() {
 				p.AwaitWatched(id)
 			}
 			return ch
@@ -331,13 +353,19 @@ func (p *Party) HandleProposal(prop client.ChannelProposal, r *client.ProposalRe
 			return
 		}
 		var acc client.ChannelProposalAccept
+		nonce := client.WithRandomNonce()
+		p.mu.Lock()
+		if p.acceptNonce != nil {
+			nonce = client.WithNonce(*p.acceptNonce)
+		}
+		p.mu.Unlock()
 		switch x := prop.(type) {
 		case *client.LedgerChannelProposalMsg:
-			acc = x.Accept(p.WAddr, client.WithRandomNonce())
+			acc = x.Accept(p.WAddr, nonce)
 		case *client.SubChannelProposalMsg:
-			acc = x.Accept(client.WithRandomNonce())
+			acc = x.Accept(nonce)
 		case *client.VirtualChannelProposalMsg:
-			acc = x.Accept(p.WAddr, client.WithRandomNonce())
+			acc = x.Accept(p.WAddr, nonce)
 		}
 		if _, err := r.Accept(ctx, acc); err != nil {
 			p.mu.Lock()
@@ -388,7 +416,7 @@ func (p *Party) Proposals() []client.ChannelProposal {
 // OpenLedgerChannel lets p propose a ledger channel to q with the given initial balances
 // ([asset][participant], p is participant 0).
 func (p *Party) OpenLedgerChannel(q *Party, bals [][]int64, dur uint64, opts ...client.ProposalOpts) (*client.Channel, error) {
-	alloc := channel.NewAllocation(2, backends(len(p.W.Assets)), p.W.Assets...)
+	alloc := channel.NewAllocation(2, backends(len(p.W.Assets)), append([]channel.Asset(nil), p.W.Assets...)...)
 	for a := range bals {
 		for i := range bals[a] {
 			alloc.Balances[a][i] = big.NewInt(bals[a][i])
@@ -413,7 +441,7 @@ func backends(n int) []wallet.BackendID {
 
 // OpenSubChannel lets p (participant 0 of parent) propose a sub-channel.
 func (p *Party) OpenSubChannel(parent *client.Channel, bals [][]int64, dur uint64, opts ...client.ProposalOpts) (*client.Channel, error) {
-	alloc := channel.NewAllocation(2, backends(len(p.W.Assets)), p.W.Assets...)
+	alloc := channel.NewAllocation(2, backends(len(p.W.Assets)), append([]channel.Asset(nil), p.W.Assets...)...)
 	for a := range bals {
 		for i := range bals[a] {
 			alloc.Balances[a][i] = big.NewInt(bals[a][i])
